@@ -97,7 +97,8 @@ def gen_cases(tier, seed):
                 fl = [{'at': k, 'phase': 'before', 'kind': 'exc'}, {'at': k, 'phase': 'after', 'kind': 'client4xx'}]
                 if k in bodies:
                     fl.append({'at': k, 'phase': 'body', 'kind': 'exc', 'bytes': bodies[k] // 2})
-            elif '/fs:allocate' in k or '/fs:rename' in k:
+            elif '/fs:allocate' in k or '/fs:rename' in k or '/fs:open' in k or '/fs:close' in k or '/fs:write' in k or '/os:open' in k:
+                # (also the worker's own file steps: opening the temporary file for a job, writing, the flush at close)
                 fl = [{'at': k, 'phase': 'before', 'kind': 'oserror'}]
             for f in fl:
                 s = copy.deepcopy(base)
